@@ -360,6 +360,9 @@ func c10(ctx *Ctx) (*Outcome, error) {
 	for i := 0; i < 36; i++ {
 		cases = append(cases, definitionCycleCase(i))
 	}
+	for i := 0; i < 10; i++ {
+		cases = append(cases, spellingChainCase(i))
+	}
 	for i := 0; i < ctx.N(14, 28); i++ {
 		cases = append(cases, sameStemCase(i))
 	}
@@ -441,6 +444,26 @@ func c10(ctx *Ctx) (*Outcome, error) {
 				gviol = append(gviol, Viol{Replay: rp, Summary: fmt.Sprintf("reference stratum %s with the root spelled %q (cwd %q, args %v): %s", c.Sig, p.Inputs, p.Cwd, p.Args, problem)})
 			}
 		}
+		// census: a file reached under several spellings is one document - its root type comes out once
+		for _, c := range cases {
+			p := sem.ProgramOf(c)
+			if p == nil || !p.Usable() || !strings.HasPrefix(c.Sig, "spelling-chain/") {
+				continue
+			}
+			shared++
+			for _, tn := range gocheck.TypeNames(p.Report.File) {
+				if strings.HasPrefix(tn, "Def") && strings.Contains(tn, "_") {
+					sharedBad++
+					if len(cviol) < 4 {
+						b, _ := json.MarshalIndent(map[string]any{"property": "C10", "kind": "one file, several spellings: numbered copy of a type", "type": tn, "schema": json.RawMessage(jsonx.Marshal(c.Root.ToJSON())), "emitted": string(p.Src)}, "", " ")
+						path := filepath.Join(evid.ReplayDir(), fmt.Sprintf("C10-census-%d.json", len(cviol)))
+						_ = os.WriteFile(path, b, 0o644)
+						cviol = append(cviol, Viol{Replay: path, Summary: fmt.Sprintf("stratum %s: the file reached under two spellings is declared twice (type %s next to its unnumbered twin)", c.Sig, tn)})
+					}
+					break
+				}
+			}
+		}
 		// census: all referrers of one definition share one named type (same-file cases)
 		for _, c := range cases {
 			p := sem.ProgramOf(c)
@@ -495,7 +518,7 @@ func c10(ctx *Ctx) (*Outcome, error) {
 
 // reC10Stratum: the hand-built reference layouts; each of them is generated and built by the unchanged tool, so a
 // refusal or unbuildable output is a reference form that stopped being transparent.
-var reC10Stratum = regexp.MustCompile(`^(file-cycle|definition-cycle|same-stem|same-base-dir|self-ref-twin|symlink-dir|same-name-def-two-files|cross-package|both-defs-keywords)/`)
+var reC10Stratum = regexp.MustCompile(`^(file-cycle|definition-cycle|spelling-chain|same-stem|same-base-dir|self-ref-twin|symlink-dir|same-name-def-two-files|cross-package|both-defs-keywords)/`)
 
 // sameBaseDirCase: schema files with the SAME base name in different directories, one referring to definitions of
 // the others by relative path while holding definitions of the same names itself; also a reference that spells out
